@@ -55,6 +55,51 @@ def plainKeys (l : Layout) : List (Coord × Nat) :=
   | [tbl] => tbl.filterMap fun (c, a) => match a with | .keyCode k => some (c, k) | _ => none
   | _ => []
 
+-- [t8:released-early] begin
+/-- the key events of a history with their physical time (sum of the tick gaps before them) -/
+def timed : Nat → List HEv → List (Nat × HEv)
+  | _, [] => []
+  | t, .tick n :: r => timed (t + n) r
+  | t, e :: r => (t, e) :: timed t r
+
+def isRelOf (c : Coord) : Nat × HEv → Bool
+  | (_, .release c') => c' == c
+  | _ => false
+
+def isPressEv : Nat × HEv → Bool
+  | (_, .press _) => true
+  | _ => false
+
+/-- for every press of coordinate `c`, in order: `some (ticks until its release, was any key pressed
+in between)`, or `none` when the key is not released in the history -/
+def pressSpans (c : Coord) : List (Nat × HEv) → List (Option (Nat × Bool))
+  | [] => []
+  | (t, .press c') :: r =>
+    if c' == c then
+      let span := r.takeWhile fun e => !isRelOf c e
+      let rel := (r.dropWhile fun e => !isRelOf c e).head?
+      (rel.map fun e => (e.1 - t, span.any isPressEv)) :: pressSpans c r
+    else pressSpans c r
+  | _ :: r => pressSpans c r
+
+/-- O4 (statement: "tap if the key is released before the hold timeout has elapsed"; the early
+triggers are presses of *other* keys *while the key is undecided*): a press of a tap-hold key that
+is released well inside its hold timeout (2 ticks of slack for queue latency), with no key pressed
+between its press and its release, must resolve to the tap action - whatever was pending before it,
+whatever is typed after its release. Judged on the implementation trace; the i-th tap/hold/timeout
+effect of a key belongs to its i-th press (O1 holds the counts equal). -/
+def releasedEarly (k : THKey) (quick : Bool) (hist : List HEv) (effects : List (Nat × Nat)) : Option String :=
+  let spans := pressSpans k.coord (timed 0 hist)
+  let idx := List.range spans.length
+  (idx.filterMap fun i =>
+    match spans[i]?, effects[i]? with
+    | some (some (dur, false)), some d =>
+      if dur + 2 < k.timeout && d.2 != k.tap then
+        some s!"key {k.coord.1}.{k.coord.2} press #{i + 1}: released after {dur} ticks (hold timeout {k.timeout}{if quick then ", concurrent-tap-hold" else ""}), no key pressed in between: expected tap {k.tap}, got {d.2} at {d.1}"
+      else none
+    | _, _ => none).head?
+-- [t8:released-early] end
+
 def oracle (l : Layout) (hist : List HEv) (items : List Trace.Item) : String :=
   let ths := thKeys l
   let allCodes := (l.cfg.layers.flatMap fun tbl => tbl.flatMap fun e => keyCodesOf e.2)
@@ -113,7 +158,14 @@ def oracle (l : Layout) (hist : List HEv) (items : List Trace.Item) : String :=
       | _ => none
     let outSeq := (ds.filter fun d => plainCodes.contains d.2).map (·.2)
     if pressedSeq == outSeq then none else some s!"plain keys pressed {pressedSeq} but output {outSeq}"
-  match o1 ++ o2.toList ++ o3.toList with
+  -- O4 [t8:released-early]
+  let o4 := ths.filterMap fun k =>
+    let markers := [k.tap, k.hold, k.to].eraseDups
+    let uniq := markers.all fun m => Trace.count allCodes m == Trace.count [k.tap, k.hold, k.to] m
+    let effects := ds.filter fun d => markers.contains d.2
+    if !uniq || k.tap == k.hold || k.tap == k.to || effects.length != presses hist k.coord then none
+    else releasedEarly k l.quickTapHoldTimeout hist effects
+  match o1 ++ o2.toList ++ o3.toList ++ o4 with
   | [] => "ok"
   | e :: _ => s!"fail {e}"
 
